@@ -92,7 +92,9 @@ func checkC15(c *Ctx) Meta {
 
 	pkgS := "poc/engine/spacekeeper/capacity"
 	sk := "(*" + pkgCapacity + ".SpaceKeeper)."
-	genIDs := []string{sk + "generateNewWorkSpace", sk + "generateNewWorkSpaceByPath", sk + "generateNewWorkSpaceByPubKey"}
+	// creation sites: the generate helpers, or the constructor itself where a helper was folded into its caller
+	genIDs := []string{sk + "generateNewWorkSpace", sk + "generateNewWorkSpaceByPath", sk + "generateNewWorkSpaceByPubKey", pkgCapacity + ".NewWorkSpace"}
+	diskChecks := []string{sk + "checkOSDiskSize", pkgCapacity + ".checkOSDiskSizeByPath"}
 
 	// ---- REJECT: lower bound in ConfigureBySize
 	if f := c.MustFn("C15-REJECT", pkgS, "(*SpaceKeeper).ConfigureBySize"); f != nil {
@@ -158,7 +160,7 @@ func checkC15(c *Ctx) Meta {
 		}
 		// disk check
 		key = spec.fn + ":free-disk-check"
-		chk := callsIn(f, spec.check)
+		chk := callsIn(f, diskChecks...)
 		if len(chk) != 1 {
 			c.Bad("C15-REJECT", key, c.Pos(f.Pos()), "no (single) free-disk check before creating spaces")
 			continue
@@ -231,7 +233,7 @@ func checkC15(c *Ctx) Meta {
 		key := "generateFillSpaceListByPathSize:creates-in-path"
 		ok := true
 		for _, g := range callsIn(f, genIDs...) {
-			if !isCall(g, sk+"generateNewWorkSpaceByPath") || !backSlice(g.Call.Args[1]).hasParam(f, "path") || backSlice(g.Call.Args[1]).hasField(pkgCapacity+".SpaceKeeper", "dbDirs") {
+			if !isCallAny(g, sk+"generateNewWorkSpaceByPath", pkgCapacity+".NewWorkSpace") || !backSlice(g.Call.Args[1]).hasParam(f, "path") || backSlice(g.Call.Args[1]).hasField(pkgCapacity+".SpaceKeeper", "dbDirs") {
 				ok = false
 			}
 		}
